@@ -2,6 +2,7 @@
    Input line:
      crosshair <nrows> (<ncols> re im ...)* <nx> x.. <ny> y.. X Y
      chern     <nrows> (<ncols> re im ...)* <nx> x.. <ny> y..
+     proj      <D> <nrows> (<ncols> re im ...)*        -> "proj 1" iff Pz^* = Pz and Pz Pz = D Pz
    all integers in hex (Hexio).  Output: "marker <n> v0 v1 ..." (numerators, hex) or
    "marker ERR" (shape error), then "end". *)
 open Model
@@ -28,6 +29,10 @@ let () =
             out "theta_x" (s_list (fun g -> s_z (fst g)) (theta xs x));
             out "theta_y" (s_list (fun g -> s_z (fst g)) (theta ys y));
             show (crosshair_num p xs ys x y)
+          | "proj" ->
+            let d = next_z c in
+            let p = read_matrix c in
+            out "proj" (s_bool (gz_projb (nat_of_int (List.length p)) d p))
           | "chern" ->
             let p = read_matrix c in
             let xs = next_list c next_z in
